@@ -341,6 +341,14 @@ def present_rule(P, R):
                 nonlocal n
                 if not T.is_node(nd):
                     return
+                if nd[0] == "Compound":
+                    # an early `if (<test on species::in>) continue;` guards the rest of the block
+                    g2 = list(guards)
+                    for st_ in nd[2]:
+                        rec(st_, g2)
+                        if T.is_node(st_) and st_[0] == "If" and not T.is_node(st_[4]) and any(y[0] in ("Continue", "Break", "Return") for y in T.walk(st_[3])):
+                            g2 = g2 + [st_[2]]
+                    return
                 if nd[0] == "If":
                     rec(nd[3], guards + [nd[2]])
                     rec(nd[4], guards)
